@@ -1,6 +1,13 @@
 """Per-property check specifications for vcheck (see DESIGN.md section 3)."""
 import os, json, time, subprocess, shutil
 
+
+def cluster_base_port(prop, seed, cidx):
+    """First port of the cidx-th three-node network of a check: disjoint ranges per property (so that
+    checks of different properties may run side by side), per seed (mod 4) and per network."""
+    pidx = int(prop[1:]) - 1
+    return 20000 + pidx * 480 + (seed % 4) * 120 + cidx * 10
+
 HERE = os.path.dirname(os.path.dirname(os.path.abspath(__file__)))
 
 
@@ -56,6 +63,7 @@ def run_gotest(vc, scr, spec, res, prop_filter=None):
             all_children.append(c)
             idx += 1
     # real-binary clusters (C05 harness B): the driver builds /repo's binary and the cluster program
+    cidx = 0
     for part in parts:
         if not part.get("cluster") or (part.get("tiers") and tier not in part["tiers"]):
             continue
@@ -74,7 +82,8 @@ def run_gotest(vc, scr, spec, res, prop_filter=None):
             os.makedirs(wd, exist_ok=True)
             env = vc.goenv({"TMPDIR": wd})
             argv = [cbin, "-bin", rbin, "-dir", os.path.join(wd, "net"), "-seed", str(res.seed * 1000003 + k), "-rounds", str(rounds),
-                    "-base_port", str(23000 + (res.seed % 50) * 100 + idx * 10), "-out", os.path.join(wd, "out.jsonl")] + part.get("cluster_args", [])
+                    "-base_port", str(cluster_base_port(res.prop, res.seed, cidx)), "-out", os.path.join(wd, "out.jsonl")] + part.get("cluster_args", [])
+            cidx += 1
             c = vc.Child(argv, env, os.path.join(wd, "out.jsonl"), os.path.join(wd, "log.txt"), wd, timeout)
             c.part = dict(part, test="cluster")
             c.k = k
@@ -688,7 +697,16 @@ def c20_post_run(vc, scr, spec, res, children):
     missing = [r for r in required if res.obs.get("overlap." + r, 0) < 5]
     res.extra.pop("required_overlaps_missing", None)
     if missing:
-        res.broken.append({"why": "required operation pairs overlapped fewer than 5 times: %s" % missing})
+        # operations that never ran at all mean the harness is broken; operations that ran but rarely
+        # met each other mean this run saw too little (a machine busy with other work): inconclusive
+        never = [r for r in missing if any(res.obs.get("ops." + op, 0) == 0 for op in r.split("||"))]
+        if never:
+            res.broken.append({"why": "required operations never ran: %s" % never})
+        else:
+            res.inconclusive.append({"t": "inconclusive", "prop": "C20",
+                                     "why": "required operation pairs overlapped fewer than 5 times in this run (%s; operations: %s): the machine was too busy for the workload's fixed time window; nothing is concluded about these pairs" % (
+                                         {r: res.obs.get("overlap." + r, 0) for r in missing},
+                                         {op: res.obs.get("ops." + op, 0) for r in missing for op in r.split("||")})})
 
 
 def c20_overlay(vc, scr):
